@@ -7,17 +7,22 @@
 //   * requests whose true byte size (128 bit arithmetic) cannot be served must throw std::bad_alloc;
 //   * destroying a pool must release every chunk it obtained.
 // One case = one allocator instance and a whole allocate/deallocate history:
-//   pool <sizeof> <alignof> <S> : a;f<k>;fn;fx          Pool<Elem,S>             (f<k>: free the k-th live block)
-//   pa <sizeof> <alignof> <s> : a;n<n>;f<k>;fn           PoolAllocator<Elem,s>    (n<n>: allocate(n))
+//   pool <sizeof> <alignof> <S> : a;ao;f<k>;fn;fx;fe;fb  Pool<Elem,S>             (f<k>: free the k-th live block;
+//                                                           ao: allocate while operator new throws; fe/fb: free of the
+//                                                           address just behind / in front of the newest chunk's storage)
+//   pa <sizeof> <alignof> <s> : a;ao;n<n>;f<k>;fn        PoolAllocator<Elem,s>    (n<n>: allocate(n))
 //   malloc <sizeof> <alignof> : a<n>;f<k>                MallocAllocator<Elem>
 //   aligned <sizeof> <alignof> <A> : a<n>;f<k>           AlignedAllocator<Elem,A> (A=0: default)
-//   debug <sizeof> <alignof> <page> : a<n>;f<k>          DebugAllocator<Elem>
-//   align <A> : i<off>;p<off>                            isAligned(buf+off,A); placement new of AlignedNumber<double,A>
+//   debug <sizeof> <alignof> <page> : a<n>;f<k>;z<k>     DebugAllocator<Elem>     (z<k>: deallocate(p, 0))
+//   align <A> : i<off>;p<off>;q<off>                     isAligned(buf+off,A); placement new / array placement new of
+//                                                           AlignedNumber<double,A>
 #include <config.h>
 
+#include <dlfcn.h>
 #include <errno.h>
 #include <fcntl.h>
 #include <malloc.h>
+#include <sys/mman.h>
 #include <unistd.h>
 
 #include <algorithm>
@@ -62,7 +67,10 @@ static Rec g_recs[MAXREC];
 static int g_nrecs = 0;
 static long g_recOverflow = 0;
 
+static bool g_failNew = false;   // while set (and g_track), operator new throws: memory exhaustion
+static long g_failNewHits = 0;
 static void* dvNew(size_t n, size_t al) {
+  if (g_track && g_failNew) { ++g_failNewHits; throw std::bad_alloc(); }
   void* p = al > alignof(std::max_align_t) ? memalign(al, n ? n : 1) : malloc(n ? n : 1);
   if (!p) throw std::bad_alloc();
   if (g_track) {
@@ -90,6 +98,41 @@ void operator delete(void* p, std::align_val_t) noexcept { dvDelete(p); }
 void operator delete[](void* p, std::align_val_t) noexcept { dvDelete(p); }
 void operator delete(void* p, size_t, std::align_val_t) noexcept { dvDelete(p); }
 void operator delete[](void* p, size_t, std::align_val_t) noexcept { dvDelete(p); }
+
+// mmap/munmap: record what the debug allocator asks of the OS while g_trackMap is set; the calls are forwarded to the
+// next definition in link order (ASan's interceptor, then libc)
+static bool g_trackMap = false;
+struct MapRec { uintptr_t base; size_t len; bool mapped; };
+static MapRec g_mapRecs[1 << 12];
+static int g_nMapRecs = 0;
+static long g_mapCalls = 0, g_unmapCalls = 0, g_unmapUnknown = 0, g_mapOverflow = 0;
+extern "C" void* mmap(void* addr, size_t len, int prot, int flags, int fd, off_t off) noexcept {
+  typedef void* (*Fn)(void*, size_t, int, int, int, off_t);
+  static Fn real = nullptr;
+  if (!real) real = (Fn)dlsym(RTLD_NEXT, "mmap");
+  void* r = real(addr, len, prot, flags, fd, off);
+  if (g_trackMap) {
+    ++g_mapCalls;
+    if (r != MAP_FAILED) {
+      if (g_nMapRecs < (1 << 12)) g_mapRecs[g_nMapRecs++] = MapRec{(uintptr_t)r, len, true};
+      else ++g_mapOverflow;
+    }
+  }
+  return r;
+}
+extern "C" int munmap(void* addr, size_t len) noexcept {
+  typedef int (*Fn)(void*, size_t);
+  static Fn real = nullptr;
+  if (!real) real = (Fn)dlsym(RTLD_NEXT, "munmap");
+  if (g_trackMap) {
+    ++g_unmapCalls;
+    bool known = false;
+    for (int i = g_nMapRecs - 1; i >= 0; --i)
+      if (g_mapRecs[i].mapped && g_mapRecs[i].base == (uintptr_t)addr && g_mapRecs[i].len == len) { g_mapRecs[i].mapped = false; known = true; break; }
+    if (!known) ++g_unmapUnknown;
+  }
+  return real(addr, len);
+}
 
 // ---------------------------------------------------------------------------------------------------------------
 // /proc/self/maps without touching the heap
@@ -189,7 +232,7 @@ struct MallocImpl : RawIface {
   Dune::MallocAllocator<T> a;
   MallocImpl() {
     sz = sizeof(T); al = alignof(T);
-    promised = std::min(alignof(T), alignof(std::max_align_t));   // malloc's guarantee
+    promised = alignof(T);   // an allocator for T must return storage aligned for T
     header = "max=" + std::to_string(a.max_size());
   }
   void* allocate(size_t n) override { return a.allocate(n); }
@@ -235,8 +278,7 @@ void regType() {
   regPool<SZ, AL, 1>(); regPool<SZ, AL, SZ>(); regPool<SZ, AL, SZ + 1>(); regPool<SZ, AL, 2 * SZ>();
   regPool<SZ, AL, 7 * SZ>(); regPool<SZ, AL, 1000>();
   regPA<SZ, AL, 1>(); regPA<SZ, AL, 2>(); regPA<SZ, AL, 7>();
-  if constexpr (AL <= alignof(std::max_align_t))
-    raws()[Key(K_MALLOC, SZ, AL, 0)] = []() -> RawIface* { return new MallocImpl<Elem<SZ, AL>>; };
+  raws()[Key(K_MALLOC, SZ, AL, 0)] = []() -> RawIface* { return new MallocImpl<Elem<SZ, AL>>; };
   regAligned<SZ, AL, -1>(); regAligned<SZ, AL, 16>(); regAligned<SZ, AL, 64>();
   raws()[Key(K_DEBUG, SZ, AL, 0)] = []() -> RawIface* { return new DebugImpl<Elem<SZ, AL>>; };
 }
@@ -245,6 +287,10 @@ static void registerAll() {
   regType<8, 8>(); regType<8, 4>(); regType<9, 1>(); regType<12, 4>(); regType<16, 16>(); regType<16, 8>();
   regType<20, 4>(); regType<24, 8>(); regType<32, 32>(); regType<40, 8>(); regType<48, 16>(); regType<64, 64>();
   regType<64, 32>(); regType<96, 32>(); regType<100, 4>(); regType<127, 1>(); regType<128, 64>(); regType<128, 16>();
+  regType<200, 8>(); regType<256, 128>(); regType<1000, 8>();
+  // more pool sizes: 0, exactly one pointer, a page
+  regPool<1, 1, 0>(); regPool<8, 8, 0>(); regPool<24, 8, 0>(); regPool<3, 1, 8>(); regPool<4, 4, 9>(); regPool<8, 8, 4096>();
+  regPool<24, 8, 4096>(); regPool<64, 64, 4096>(); regPool<12, 4, 4095>(); regPA<8, 8, 64>(); regPA<24, 8, 100>();
   // a few more requested alignments
   regAligned<4, 4, 8>(); regAligned<8, 8, 32>(); regAligned<24, 8, 128>(); regAligned<1, 1, 2>(); regAligned<3, 1, 4>();
 }
@@ -252,7 +298,8 @@ static void registerAll() {
 // ---------------------------------------------------------------------------------------------------------------
 // the independent oracle: interval map of live blocks + tags
 // ---------------------------------------------------------------------------------------------------------------
-struct LiveBlock { unsigned char* p; size_t bytes; size_t n; uint64_t serial; };
+struct LiveBlock { unsigned char* p; size_t bytes; size_t n; uint64_t serial; bool sparse = false; };
+static const size_t SPARSE_EDGE = 4096;   // large blocks are written/verified in their first and last SPARSE_EDGE bytes only
 
 struct Shadow {
   std::map<uintptr_t, size_t> iv;   // start -> length of every live block (length > 0)
@@ -271,9 +318,12 @@ struct Shadow {
   void remove(uintptr_t p) { iv.erase(p); }
 };
 static unsigned char tagByte(uint64_t serial, size_t i) { return (unsigned char)(0x80 | ((serial * 13 + i * 7 + 1) & 0x7f)); }
-static void fillTag(const LiveBlock& b) { for (size_t i = 0; i < b.bytes; ++i) b.p[i] = tagByte(b.serial, i); }
+static bool skipped(const LiveBlock& b, size_t i) { return b.sparse && i >= SPARSE_EDGE && i + SPARSE_EDGE < b.bytes; }
+static void fillTag(const LiveBlock& b) {
+  for (size_t i = 0; i < b.bytes; ++i) { if (skipped(b, i)) { i = b.bytes - SPARSE_EDGE - 1; continue; } b.p[i] = tagByte(b.serial, i); }
+}
 static bool checkTag(const LiveBlock& b) {
-  for (size_t i = 0; i < b.bytes; ++i) if (b.p[i] != tagByte(b.serial, i)) return false;
+  for (size_t i = 0; i < b.bytes; ++i) { if (skipped(b, i)) { i = b.bytes - SPARSE_EDGE - 1; continue; } if (b.p[i] != tagByte(b.serial, i)) return false; }
   return true;
 }
 
@@ -335,14 +385,37 @@ static Result execPool(bool isPA, size_t sz, size_t al, size_t S, const std::vec
         if (g_nrecs > before) dv::stat("pool_grow");
         else dv::stat(live.empty() ? "pool_pop" : "pool_pop_with_live");
         handOut(p, opno);
-      } else if (op == "fn") {
-        dv::stat("op_pool_free_null");
-        g_track = true; pool->free(nullptr); g_track = false;
+      } else if (op == "ao") {
+        // memory exhaustion: operator new throws while the pool works
+        dv::stat("op_pool_alloc_oom");
+        long hitsBefore = g_failNewHits;
+        void* p = nullptr;
+        g_failNew = true; g_track = true;
+        try { p = pool->allocate(); } catch (std::bad_alloc&) {
+          g_track = false; g_failNew = false;
+          if (g_failNewHits == hitsBefore) sh.bad("op " + std::to_string(opno) + ": allocate threw bad_alloc without having asked for memory");
+          dv::stat("pool_oom_refused");
+          throw;
+        }
+        g_track = false; g_failNew = false;
+        if (g_failNewHits != hitsBefore) sh.bad("op " + std::to_string(opno) + ": allocate returned a block although operator new failed");
+        dv::stat("pool_oom_served_from_free_list");
+        handOut(p, opno);
+      } else if (op == "fn" || op == "fx" || op == "fe" || op == "fb") {
+        // addresses that are not inside any chunk's storage: must be refused (the check is active without NDEBUG)
+        unsigned char* q = nullptr;
+        if (op == "fn") dv::stat("op_pool_free_null");
+        else if (op == "fx") { dv::stat("op_pool_free_foreign"); q = g_foreign + 64; }
+        else {
+          int newest = -1;
+          for (int i = g_nrecs - 1; i >= 0; --i) if (g_recs[i].alive) { newest = i; break; }
+          if (newest < 0) { dv::stat("op_pool_free_foreign"); q = g_foreign + 64; }
+          else if (op == "fe") { dv::stat("op_pool_free_behind_chunk"); q = (unsigned char*)g_recs[newest].base + pool->geo[4]; }
+          else { dv::stat("op_pool_free_before_chunk"); q = (unsigned char*)g_recs[newest].base - 1; }
+        }
+        g_track = true; pool->free(q); g_track = false;
         outs.push_back("ok");
-      } else if (op == "fx") {
-        dv::stat("op_pool_free_foreign");
-        g_track = true; pool->free(g_foreign + 64); g_track = false;
-        outs.push_back("ok");
+        sh.bad("op " + std::to_string(opno) + ": free accepted an address outside the pool's chunks (" + op + ")");
       } else if (op[0] == 'f') {
         unsigned long long k;
         if (!parseNum(op, 1, k)) return badCase("op");
@@ -367,13 +440,15 @@ static Result execPool(bool isPA, size_t sz, size_t al, size_t S, const std::vec
         } else handOut(p, opno);
       } else return badCase("op");
     } catch (std::bad_alloc&) {
-      g_track = false;
+      g_track = false; g_failNew = false;
       outs.push_back("ERR:Alloc");
       dv::stat("err_alloc");
     }
   }
   for (const LiveBlock& b : live)
     if (sh.fail.empty() && !checkTag(b)) sh.bad("end: contents of a live block were overwritten");
+  if (g_nrecs >= 2) dv::stat("pool_case_with_2plus_chunks");
+  if (ops.size() > 100) dv::stat("pool_case_long_history");
   dv::stat("pool_live_at_destroy", (long)live.size());
   int chunks = g_nrecs;
   std::vector<long> geo = pool->geo;
@@ -404,12 +479,18 @@ static Result execRaw(int kind, size_t sz, size_t al, size_t param, const std::v
   if (a->sz != sz || a->al != al) sh.bad("element type has sizeof/alignof " + std::to_string(a->sz) + "/" + std::to_string(a->al));
   const u128 addressSpace = (u128)1 << 47;
 
-  auto release = [&](size_t k, size_t opno) {
+  g_nMapRecs = 0; g_mapCalls = g_unmapCalls = g_unmapUnknown = 0;
+  auto release = [&](size_t k, size_t opno, bool withSize) {
     LiveBlock b = live[k];
     if (!checkTag(b)) sh.bad("op " + std::to_string(opno) + ": contents of a live block were overwritten");
     live.erase(live.begin() + (long)k);
     sh.remove((uintptr_t)b.p);
-    a->deallocate(b.p, b.n);
+    long unmapsBefore = g_unmapCalls;
+    g_trackMap = kind == K_DEBUG; a->deallocate(b.p, withSize ? b.n : 0); g_trackMap = false;
+    if (kind == K_DEBUG) {
+      if (g_unmapCalls != unmapsBefore + 1) sh.bad("op " + std::to_string(opno) + ": deallocate made " + std::to_string(g_unmapCalls - unmapsBefore) + " munmap calls");
+      if (g_unmapUnknown) sh.bad("op " + std::to_string(opno) + ": munmap of a range that is not exactly a range obtained from mmap");
+    }
     if (kind == K_DEBUG && readMaps()) {
       // the mapping (block and guard page) has been given back
       uintptr_t guard = (uintptr_t)b.p + b.bytes;
@@ -428,15 +509,22 @@ static Result execRaw(int kind, size_t sz, size_t al, size_t param, const std::v
       u128 trueBytes = (u128)n * sz;
       dv::stat(trueBytes == 0 ? "op_alloc_0" : trueBytes >= addressSpace ? "op_alloc_huge" : "op_alloc_small");
       if (kind == K_DEBUG && trueBytes < addressSpace && trueBytes % page == 0) dv::stat("debug_page_multiple");
+      const bool mid = trueBytes > (1u << 22) && trueBytes < addressSpace;
+      if (mid) dv::stat("op_alloc_mid_4MiB_64MiB");
       void* vp = nullptr;
+      long mapsBefore = g_mapCalls;
+      int recsBefore = g_nMapRecs;
       try {
-        vp = a->allocate((size_t)n);
+        g_trackMap = kind == K_DEBUG; vp = a->allocate((size_t)n); g_trackMap = false;
       } catch (std::bad_alloc&) {
+        g_trackMap = false;
         outs.push_back("ERR:Alloc");
         dv::stat("err_alloc");
-        if (trueBytes <= (1u << 22) && live.size() < 4096) sh.bad("op " + std::to_string(opno) + ": small request refused");
+        if (trueBytes <= (1u << 26) && live.size() < 4096) sh.bad("op " + std::to_string(opno) + ": small request refused");
+        if (g_nMapRecs != recsBefore) sh.bad("op " + std::to_string(opno) + ": refused request left a mapping behind");
         continue;
       }
+      if (kind == K_DEBUG && g_mapCalls != mapsBefore + 1) sh.bad("op " + std::to_string(opno) + ": allocate made " + std::to_string(g_mapCalls - mapsBefore) + " mmap calls");
       outs.push_back("ok");
       uintptr_t p = (uintptr_t)vp;
       std::string at = "op " + std::to_string(opno) + ": ";
@@ -454,9 +542,14 @@ static Result execRaw(int kind, size_t sz, size_t al, size_t param, const std::v
         if (bytes && !rangeRW(p, p + bytes, page)) { sh.bad(at + "block is not inside readable+writable pages"); continue; }
         if ((p + bytes) % page != 0) sh.bad(at + "block does not end at a page boundary");
         else if (pageState(p + bytes) != 1) sh.bad(at + "no inaccessible guard page directly behind the block");
+        // block and guard page lie inside the mapping this call obtained
+        if (g_nMapRecs == recsBefore + 1) {
+          const MapRec& m = g_mapRecs[recsBefore];
+          if (!(m.base <= p && p + bytes + page <= m.base + m.len)) sh.bad(at + "block and guard page are not inside the mapping obtained for them");
+        }
       }
       sh.add(p, bytes, opno);
-      LiveBlock b{(unsigned char*)vp, bytes, (size_t)n, ++serial};
+      LiveBlock b{(unsigned char*)vp, bytes, (size_t)n, ++serial, bytes > (1u << 22)};
       if (sh.fail.empty()) fillTag(b);   // whole extent writable (ASan / the guard page object otherwise)
       live.push_back(b);
     } else if (op[0] == 'f') {
@@ -464,17 +557,33 @@ static Result execRaw(int kind, size_t sz, size_t al, size_t param, const std::v
       if (!parseNum(op, 1, k)) { res = badCase("op"); break; }
       if (k >= live.size()) { outs.push_back("-"); dv::stat("op_skipped"); continue; }
       dv::stat("op_free");
-      release((size_t)k, opno);
+      release((size_t)k, opno, true);
+      outs.push_back("ok");
+    } else if (op[0] == 'z' && kind == K_DEBUG) {
+      unsigned long long k;
+      if (!parseNum(op, 1, k)) { res = badCase("op"); break; }
+      if (k >= live.size()) { outs.push_back("-"); dv::stat("op_skipped"); continue; }
+      dv::stat("op_free_n0");
+      release((size_t)k, opno, false);
       outs.push_back("ok");
     } else { res = badCase("op"); break; }
   }
   dv::stat("raw_live_at_end", (long)live.size());
+  std::string tail;
+  if (kind == K_DEBUG) tail = " : mapped=" + std::to_string(g_nMapRecs) + " unmapped=" + std::to_string(g_unmapCalls);
   // give everything back (also after a failure: the debug manager aborts at exit on blocks still in use)
-  { std::string first = sh.fail; while (!live.empty()) release(live.size() - 1, opno + 1); if (!first.empty()) sh.fail = first; }
+  { std::string first = sh.fail; while (!live.empty()) release(live.size() - 1, opno + 1, true); if (!first.empty()) sh.fail = first; }
+  if (kind == K_DEBUG) {
+    // all memory returned: every mapping obtained during the case has been unmapped with its exact range
+    int still = 0;
+    for (int i = 0; i < g_nMapRecs; ++i) if (g_mapRecs[i].mapped) ++still;
+    if (still) sh.bad("end: " + std::to_string(still) + " of " + std::to_string(g_nMapRecs) + " mappings were never unmapped");
+    if (g_mapOverflow) sh.bad("harness: mapping table overflow");
+  }
   std::string header = a->header;
   delete a;
   if (!res.impl.empty()) return res;   // bad op
-  res.impl = header + " : " + join(outs.begin(), outs.end(), ";");
+  res.impl = header + " : " + join(outs.begin(), outs.end(), ";") + tail;
   if (!sh.fail.empty()) res.oracle = "FAIL " + sh.fail;
   return res;
 }
@@ -483,6 +592,16 @@ static Result execRaw(int kind, size_t sz, size_t al, size_t param, const std::v
 struct AlignViolation {};
 alignas(4096) static unsigned char g_abuf[8192];
 
+template <size_t A>
+static std::string placeAlignedArray(unsigned char* at) {
+  try {
+    auto* q = new (at) Dune::AlignedNumber<double, A>[2];
+    q[0] = 2.5; q[1] = 3.5;
+    return q[0].value() == 2.5 && q[1].value() == 3.5 ? "ok" : "bad-value";
+  } catch (AlignViolation&) {
+    return "viol";
+  }
+}
 template <size_t A>
 static std::string placeAligned(unsigned char* at) {
   try {
@@ -516,6 +635,12 @@ static Result execAlign(size_t A, const std::vector<std::string>& ops) {
                     : A == 32 ? placeAligned<32>(g_abuf + off) : A == 64 ? placeAligned<64>(g_abuf + off) : "unsupported";
       outs.push_back(r);
       if (r != (expect ? "ok" : "viol") && fail.empty()) fail = "placement at base+" + std::to_string(off) + " with alignment " + std::to_string(A) + ": " + r;
+    } else if (op[0] == 'q') {
+      dv::stat("op_placement_array");
+      std::string r = A == 8 ? placeAlignedArray<8>(g_abuf + off) : A == 16 ? placeAlignedArray<16>(g_abuf + off)
+                    : A == 32 ? placeAlignedArray<32>(g_abuf + off) : A == 64 ? placeAlignedArray<64>(g_abuf + off) : "unsupported";
+      outs.push_back(r);
+      if (r != (expect ? "ok" : "viol") && fail.empty()) fail = "array placement at base+" + std::to_string(off) + " with alignment " + std::to_string(A) + ": " + r;
     } else { Dune::violatedAlignmentHandler() = saved; return badCase("op"); }
   }
   Dune::violatedAlignmentHandler() = saved;
@@ -562,6 +687,8 @@ static std::string genPoolOps(Rng& r, bool isPA, long elements, long maxOps) {
   std::vector<std::string> ops;
   long live = 0;
   long nops = r.coin(1, 6) ? r.range(1, 6) : r.range(4, maxOps);
+  // now and then a history long enough to fill several chunks of this pool
+  if (r.coin(1, 12)) nops = std::min<long>(600, 2 * elements + r.range(3, 40));
   int phase = (int)r.below(3);   // 0 fill, 1 drain, 2 churn
   long phaseLeft = r.coin() ? elements + r.range(-1, 2) : r.range(1, 12);
   if (phaseLeft < 1) phaseLeft = 1;
@@ -576,7 +703,13 @@ static std::string genPoolOps(Rng& r, bool isPA, long elements, long maxOps) {
     int pa = phase == 0 ? 90 : phase == 1 ? 10 : 50;
     long x = r.range(0, 99);
     if (x < 2) { ops.push_back("fn"); continue; }
-    if (x < 4 && !isPA) { ops.push_back("fx"); continue; }
+    if (x < 4 && !isPA) { ops.push_back(r.coin() ? "fx" : r.coin() ? "fe" : "fb"); continue; }
+    if (x >= 97) {
+      // memory exhaustion; succeeds iff the pool has a free slot (the shadow count is exact only while every op is valid)
+      ops.push_back("ao");
+      if (elements > 0 && live % elements != 0) ++live;
+      continue;
+    }
     if (isPA && x < 7) {
       static const char* ns[] = {"n0", "n2", "n3", "n1", "n1", "n18446744073709551615", "n4294967297", "n9223372036854775808"};
       std::string s = ns[r.below(8)];
@@ -627,6 +760,11 @@ static std::string genRawOps(Rng& r, int kind, size_t sz, size_t page, long maxO
         if (bytes < 0) bytes = 0;
         n = (unsigned long long)bytes / sz;
         if (r.coin(1, 3) && page % sz == 0) n = pages * (page / sz);
+      } else if (y >= 97) {
+        // a large request the OS serves lazily: 4 MiB < bytes <= 64 MiB
+        unsigned long long bytes = (4ull << 20) + 1 + r.below((60ull << 20));
+        if (r.coin(1, 3)) bytes = (unsigned long long)r.range(1025, 16384) * page + (r.coin() ? 0 : r.below(page));
+        n = (bytes + sz - 1) / sz;
       } else if (y < 25) {
         n = r.below(3);   // 0, 1, 2
       } else {
@@ -639,7 +777,7 @@ static std::string genRawOps(Rng& r, int kind, size_t sz, size_t page, long maxO
     } else {
       long k = r.coin(1, 3) ? 0 : r.coin() ? live - 1 : r.range(0, live - 1);
       if (r.coin(1, 40)) k = live + r.range(0, 2);
-      ops.push_back("f" + std::to_string(k));
+      ops.push_back(std::string(kind == K_DEBUG && r.coin(1, 4) ? "z" : "f") + std::to_string(k));
       if (k < live) --live;
     }
   }
@@ -684,7 +822,7 @@ static std::string gen(Rng& r, long, const Args& a) {
       long off = base + d;
       if (off < 0) off = 0;
       if (off >= 4000) off = 4000 - (long)r.below(64);
-      ops.push_back(std::string(placement && r.coin(1, 3) ? "p" : "i") + std::to_string(off));
+      ops.push_back(std::string(placement && r.coin(1, 3) ? (r.coin(1, 3) ? "q" : "p") : "i") + std::to_string(off));
     }
     os << "align " << A << " : " << join(ops.begin(), ops.end(), ";");
   }
